@@ -52,11 +52,21 @@ func (nb *nativeBuilder) Close() { os.RemoveAll(nb.workDir) }
 
 func pkgOfHarness(h string) string { return h[:strings.LastIndex(h, ".")] }
 
+// isRaceLabel: violations of the lock discipline are confirmed by the race detector.
+func isRaceLabel(l string) bool { return strings.HasPrefix(l, "C19/lock-discipline") }
+
 // binary builds (once per run) the native test binary of the harness package.
-func (nb *nativeBuilder) binary(pkg string) (string, error) {
+func (nb *nativeBuilder) binary(pkg string) (string, error) { return nb.binaryMode(pkg, false) }
+
+// binaryMode: race=true builds the same test binary with the race detector.
+func (nb *nativeBuilder) binaryMode(pkg string, race bool) (string, error) {
 	nb.mu.Lock()
 	defer nb.mu.Unlock()
-	if b, ok := nb.bins[pkg]; ok {
+	cacheKey := pkg
+	if race {
+		cacheKey += "|race"
+	}
+	if b, ok := nb.bins[cacheKey]; ok {
 		return b, nil
 	}
 	t0 := time.Now()
@@ -98,7 +108,7 @@ func TestZZVerifReplay(t *testing.T) {
 	}
 }
 `, pkgName, modPath)
-	id := fmt.Sprintf("%x", sha1.Sum([]byte(pkg)))[:10]
+	id := fmt.Sprintf("%x", sha1.Sum([]byte(cacheKey)))[:10]
 	testFile := filepath.Join(nb.workDir, "zz_replay_"+id+"_test.go")
 	os.WriteFile(testFile, []byte(testSrc), 0o644)
 	ov := map[string]string{filepath.Join(pkgDir, "zz_verif_replay_test.go"): testFile}
@@ -120,10 +130,15 @@ func TestZZVerifReplay(t *testing.T) {
 	ovFile := filepath.Join(nb.workDir, "overlay_"+id+".json")
 	os.WriteFile(ovFile, ovJSON, 0o644)
 	bin := filepath.Join(nb.workDir, "replay_"+id+".test")
-	cmd := exec.Command("go", "test", "-c", "-tags", "verif", "-vet=off", "-overlay", ovFile, "-o", bin, "./"+rel)
+	target := "./" + rel
 	if rel == "" {
-		cmd = exec.Command("go", "test", "-c", "-tags", "verif", "-vet=off", "-overlay", ovFile, "-o", bin, ".")
+		target = "."
 	}
+	args := []string{"test", "-c", "-tags", "verif", "-vet=off", "-overlay", ovFile, "-o", bin}
+	if race {
+		args = append(args, "-race")
+	}
+	cmd := exec.Command("go", append(args, target)...)
 	cmd.Dir = repoDir
 	cmd.Env = append(os.Environ(), "GOFLAGS=-mod=mod", "GOPROXY=off", "GOSUMDB=off", "GOTOOLCHAIN=local")
 	out, err := cmd.CombinedOutput()
@@ -131,7 +146,7 @@ func TestZZVerifReplay(t *testing.T) {
 	if err != nil {
 		return "", fmt.Errorf("native build of %s failed: %v\n%s", pkg, err, out)
 	}
-	nb.bins[pkg] = bin
+	nb.bins[cacheKey] = bin
 	return bin, nil
 }
 
@@ -141,7 +156,8 @@ func (nb *nativeBuilder) Replay(cases []ReplayCase) ([]ReplayResult, error) {
 		return nil, nil
 	}
 	pkg := pkgOfHarness(cases[0].Harness)
-	bin, err := nb.binary(pkg)
+	race := isRaceLabel(cases[0].Label)
+	bin, err := nb.binaryMode(pkg, race)
 	if err != nil {
 		return nil, err
 	}
@@ -153,6 +169,9 @@ func (nb *nativeBuilder) Replay(cases []ReplayCase) ([]ReplayResult, error) {
 	cmd := exec.Command(bin, "-test.run", "^TestZZVerifReplay$", "-test.timeout", "120s")
 	cmd.Dir = nb.workDir
 	cmd.Env = append(os.Environ(), "VERIF_REPLAY="+in.Name(), "VERIF_RESULT="+outPath)
+	if race {
+		cmd.Env = append(cmd.Env, "VERIF_RACE=1", "GORACE=halt_on_error=1 exitcode=66")
+	}
 	out, rerr := cmd.CombinedOutput()
 	data, err := os.ReadFile(outPath)
 	os.Remove(in.Name())
